@@ -330,3 +330,45 @@ for _o, _i in [('quadratic_equality', 'quadratic_inequality'), ('linear_inequali
                ('uniform_inequality', 'lagrange_inequality'), ('lagrange_equality', 'linear_inequality')]:
     contract('C15/stack-iter/%s(%s)' % (_o, _i), ['C15', 'C14'] if 'quadratic' in _o and 'quadratic' in _i else ['C15'],
              P + _o + '.iter')(lambda h, o=_o, i=_i: _iter_levels(h, o, i))
+
+
+# ---------------------------------------------------------------- the documented multiplier recurrence, n = 2 and 3
+def _lagrange_recurrence(h, ptype):
+    """with stored values y_0 .. y_{n-1} (any reals) and n = 2 / 3 iterations the value is the documented augmented
+    Lagrangian: pk_i = k*h**i;  inequality: beta_{i+1} = beta_i + 2*pk_i*max(-beta_i/(2*pk_i), y_i), value =
+    pk_n*m**2 + beta_n*m + f(x) with m = max(-beta_n/(2*pk_n), c(x));  equality: lam_{i+1} = lam_i + 2*pk_i*y_i, value =
+    pk_n*c**2 + lam_n*c + f(x)"""
+    n = h.choice('iterations', [2, 3])
+    k, hh, cond, f, func, _ = _setup(h, ptype, 'zero')
+    xs = [h.list_real('x%d' % i) for i in range(n)]
+    ys = []
+    for i in range(n):
+        y, e = h.call_raises(cond, xs[i])
+        if e is not None:
+            return                      # (division cases: store-stored contract)
+        ys.append(y)
+        h.call(h.getattr(func, 'store'), xs[i], i)
+    h.call(h.getattr(func, 'iter'), n)
+    x = h.list_real('x')
+    c, exc = h.call_raises(cond, x)
+    if exc is not None:
+        return
+    r = h.call(func, x)
+    fx = h.call(f, x)
+    ineq = ptype.endswith('inequality')
+    mult, pk = 0, k
+    for i in range(n):
+        if ineq:
+            mult = h.ev('b + 2*pk*max(-b/(2*pk), y)', b=mult, pk=pk, y=ys[i])
+        else:
+            mult = h.ev('b + 2*pk*y', b=mult, pk=pk, y=ys[i])
+        pk = h.ev('pk*hh', pk=pk, hh=hh)
+    if ineq:
+        m = h.ev('max(-b/(2*pk), c)', b=mult, pk=pk, c=c)
+    else:
+        m = c
+    h.check('value-is-the-documented-augmented-lagrangian', 'eq(r, pk*m*m + b*m + fx)', r=r, pk=pk, m=m, b=mult, fx=fx)
+
+
+for _p in ('lagrange_inequality', 'lagrange_equality'):
+    contract('C15/%s/multiplier-recurrence' % _p, ['C15'], P + _p + '.dec.func')(lambda h, p=_p: _lagrange_recurrence(h, p))
